@@ -534,6 +534,130 @@ def run(ctx, chk, tier="quick"):
                "%s per %s; intervals joined to their own crossings: %s; level = id x step: %s" % (desc, gb, join_ok, lvl_ok),
                "AVG(offset + crossing) per level id over each interval's own crossings", key="view|%s|mean" % view,
                why="the master curve is the mean of the shifted crossings at each level; the offsets minimise the spread about exactly this mean")
+    # ---------------- O5: connected components
+    _components(ctx, chk)
+
+
+def _components(ctx, chk):
+    """C05.O5 -- get_connected_components: a level joins EVERY existing group it shares a series with (so groups
+    that it bridges are merged).  Three verdicts: all matching groups are collected, removed and united /
+    only the first match is taken (violation) / another construction (not read)."""
+    try:
+        f = ctx.func("fit_offsets.get_connected_components")
+    except Exception:
+        f = None
+    if f is None:
+        chk.indeterminate("C05.O5", ("spowtd/fit_offsets.py", "<module>", 0), "get_connected_components not found")
+        return
+    flow = Flow.of(f)
+    where = where_of(f, f.node)
+    req = "a level is merged with every existing group it shares a series with: all of them are removed from the table and united with it"
+    why = "a level that bridges two groups joined to only one of them leaves a connected collection split: intervals are dropped and shared levels leave the objective, so the offsets written are not the minimiser over the collection"
+    loops = [n for n in ast.walk(f.node) if isinstance(n, ast.For) and isinstance(n.target, ast.Tuple) and len(n.target.elts) == 2
+             and all(isinstance(t, ast.Name) for t in n.target.elts) and getattr(n, "parent", None) is f.node]
+    loops = [l for l in loops if f.params and any(isinstance(x, ast.Name) and x.id == f.params[0] for x in ast.walk(l.iter))]
+    if len(loops) != 1:
+        chk.indeterminate("C05.O5", where, "loop over the levels of the mapping not found")
+        return
+    loop = loops[0]
+    level, sset = loop.target.elts[0].id, loop.target.elts[1].id
+    # the table of groups: a dict stored by subscript inside the loop
+    gstores = [n for n in ast.walk(loop) if isinstance(n, ast.Assign) and isinstance(n.targets[0], ast.Subscript) and isinstance(n.targets[0].value, ast.Name)]
+    gnames = {n.targets[0].value.id for n in gstores}
+    if len(gnames) != 1 or len(gstores) != 1:
+        chk.indeterminate("C05.O5", where_of(f, loop), "expected one store `groups[keys] = members` per level")
+        return
+    groups = gnames.pop()
+    store = gstores[0]
+
+    def overlap_test(t):
+        """test that the level's series set meets a group: not S.isdisjoint(G), S & G, S.intersection(G) -> G name"""
+        neg = False
+        if isinstance(t, ast.UnaryOp) and isinstance(t.op, ast.Not):
+            neg, t = True, t.operand
+        if isinstance(t, ast.Call) and isinstance(t.func, ast.Attribute) and len(t.args) == 1:
+            a, b = t.func.value, t.args[0]
+            names = {x.id for x in (a, b) if isinstance(x, ast.Name)}
+            if sset in names and len(names) == 2:
+                other = (names - {sset}).pop()
+                if t.func.attr == "isdisjoint" and neg:
+                    return other
+                if t.func.attr == "intersection" and not neg:
+                    return other
+        if isinstance(t, ast.BinOp) and isinstance(t.op, ast.BitAnd) and not neg:
+            names = {x.id for x in (t.left, t.right) if isinstance(x, ast.Name)}
+            if sset in names and len(names) == 2:
+                return (names - {sset}).pop()
+        return None
+
+    # the selection of matching groups: a comprehension / generator over groups.items() with the overlap test
+    sels = []
+    for n in ast.walk(loop):
+        if isinstance(n, (ast.ListComp, ast.GeneratorExp, ast.SetComp)) and len(n.generators) == 1:
+            g = n.generators[0]
+            if any(isinstance(x, ast.Name) and x.id == groups for x in ast.walk(g.iter)) and len(g.ifs) == 1 and overlap_test(g.ifs[0]) is not None:
+                sels.append(n)
+    inner_loops = [n for n in ast.walk(loop) if isinstance(n, ast.For) and n is not loop and any(isinstance(x, ast.Name) and x.id == groups for x in ast.walk(n.iter))]
+    if len(sels) != 1 or inner_loops:
+        if inner_loops and not sels:
+            brk = [x for l in inner_loops for x in ast.walk(l) if isinstance(x, ast.Break)]
+            tests = [x for l in inner_loops for x in ast.walk(l) if isinstance(x, ast.If) and overlap_test(x.test) is not None]
+            if brk and tests and len(inner_loops) == 1:
+                chk.ob("C05.O5", False, where_of(f, brk[0]), "the search over %s stops at the first group that shares a series (break)" % groups, req,
+                       key="get_connected_components|all-matches", why=why, scope=f)
+                return
+        chk.indeterminate("C05.O5", where_of(f, loop), "selection of the groups that share a series with the level is not a single comprehension over %s with an overlap test" % groups)
+        return
+    sel = sels[0]
+    par = getattr(sel, "parent", None)
+    # first match only: next(<generator>, default) / [ ... ][0]
+    if isinstance(par, ast.Call) and isinstance(par.func, ast.Name) and par.func.id == "next" and par.args and par.args[0] is sel:
+        chk.ob("C05.O5", False, where_of(f, par), "next(%s ...): only the first group that shares a series with the level is taken" % ast.unparse(sel)[:70], req,
+               key="get_connected_components|all-matches", why=why, scope=f)
+        return
+    if isinstance(par, ast.Subscript) and par.value is sel and not isinstance(par.slice, ast.Slice):
+        chk.ob("C05.O5", False, where_of(f, par), "%s[%s]: one of the matching groups is taken" % (ast.unparse(sel)[:60], ast.unparse(par.slice)), req,
+               key="get_connected_components|all-matches", why=why, scope=f)
+        return
+    if not isinstance(sel, ast.ListComp):
+        chk.indeterminate("C05.O5", where_of(f, sel), "matching groups are selected lazily (%s): how often the selection is consumed is not read" % type(sel).__name__)
+        return
+    mname = None
+    if isinstance(par, ast.Assign) and len(par.targets) == 1 and isinstance(par.targets[0], ast.Name):
+        mname = par.targets[0].id
+    if mname is None:
+        chk.indeterminate("C05.O5", where_of(f, sel), "the list of matching groups is not bound to a name")
+        return
+    elt_is_key = isinstance(sel.elt, ast.Name) and isinstance(sel.generators[0].target, ast.Tuple) and len(sel.generators[0].target.elts) == 2 \
+        and isinstance(sel.generators[0].target.elts[0], ast.Name) and sel.elt.id == sel.generators[0].target.elts[0].id
+    # every matched group is removed:  [groups.pop(k) for k in matches]  /  for k in matches: ... groups.pop(k) / del groups[k]
+    removed = united = False
+    others_name = None
+    for n in ast.walk(loop):
+        if isinstance(n, (ast.ListComp, ast.GeneratorExp)) and len(n.generators) == 1 and not n.generators[0].ifs \
+                and isinstance(n.generators[0].iter, ast.Name) and n.generators[0].iter.id == mname and isinstance(n.generators[0].target, ast.Name):
+            e = n.elt
+            if isinstance(e, ast.Call) and isinstance(e.func, ast.Attribute) and e.func.attr == "pop" and isinstance(e.func.value, ast.Name) \
+                    and e.func.value.id == groups and len(e.args) >= 1 and isinstance(e.args[0], ast.Name) and e.args[0].id == n.generators[0].target.id:
+                removed = True
+                pp = getattr(n, "parent", None)
+                if isinstance(pp, ast.Assign) and isinstance(pp.targets[0], ast.Name):
+                    others_name = pp.targets[0].id
+                elif isinstance(pp, ast.Starred):
+                    others_name = "*"
+    # the new group = S.union(*others) / S | ... ; stored value
+    sv = store.value
+    svx = flow.def_value(sv) if isinstance(sv, ast.Name) else sv
+    if isinstance(svx, ast.Call) and isinstance(svx.func, ast.Attribute) and svx.func.attr == "union" and isinstance(svx.func.value, ast.Name) and svx.func.value.id == sset:
+        for a in svx.args:
+            if isinstance(a, ast.Starred) and ((isinstance(a.value, ast.Name) and a.value.id == others_name) or
+                                               (others_name == "*" and isinstance(a.value, (ast.ListComp, ast.GeneratorExp)))):
+                united = True
+    if not (elt_is_key and removed and united):
+        chk.indeterminate("C05.O5", where_of(f, loop), "all matching groups are selected, but how they are removed and united (%s) is not read" % ast.unparse(store)[:70])
+        return
+    chk.ob("C05.O5", True, where_of(f, sel), "all groups of %s that share a series with the level are selected (%s), popped and united with it" % (groups, mname), req,
+           key="get_connected_components|all-matches", why=why, scope=f)
 
 
 def _anc(node):
